@@ -1,4 +1,4 @@
 #!/bin/bash
 # sequentially confirm the given seeded changes (one test-suite run at a time); serialised by a lock file
-exec 9>/tmp/confirm_queue.lock; flock 9
+exec 9>/tmp/confirm_queue${QLOCK:-}.lock; flock 9
 for s in "$@"; do CTEST_J=${CTEST_J:-6} DEMO_TIMEOUT=900 /verif/scripts/confirm_seeded.sh /verif/seeded/$s > /tmp/confirm_$s.out 2>&1; done
